@@ -142,8 +142,11 @@ class Ctx:
             if os.path.exists(DRIVER):
                 break
             time.sleep(2)
+        # a driver call that does not come back is an infrastructure failure (exit 2), never a
+        # violation claim
         p = subprocess.run([DRIVER], input='\n'.join(lines) + '\n',
-                           capture_output=True, text=True)
+                           capture_output=True, text=True,
+                           timeout=int(os.environ.get('VERIF_DRIVER_TIMEOUT', '1500')))
         out = p.stdout.split('\n')
         if out and out[-1] == '':
             out.pop()
